@@ -43,6 +43,8 @@ def _holds_real_locks(fn):
     return parts[-1] in _REAL_LOCK_MODULES or any(p in _REAL_LOCK_PACKAGES for p in parts[-4:-1])
 
 
+_IO_MODULES = ("pathlib.py", "shutil.py", "os.py", "genericpath.py", "posixpath.py", "glob.py", "fnmatch.py", "pickle.py", "json", "csv.py",
+               "configparser.py", "zipfile.py", "gzip.py", "tarfile.py", "fileinput.py", "filecmp.py", "stat.py", "marshal.py", "copyreg.py")
 FOREIGN_POINT_BUDGET = 300_000   # per run: beyond this, foreign (non-package) frames run atomically again
 _ACTIVE = None          # the Scheduler currently running (one per process at a time)
 SINGLE_THREADED = True  # outside a simulation the harness processes have exactly one thread
@@ -206,6 +208,9 @@ class FrameClasses:
                   or not fn.endswith(".py") or _holds_real_locks(fn)):
                 cls = 0                      # the harness itself, the import system, synthetic code, modules that guard Python-level
                 #                              critical sections with REAL locks (parking a thread inside one would block the process)
+            elif os.path.basename(fn) in _IO_MODULES or os.path.basename(os.path.dirname(fn)) in _IO_MODULES:
+                cls = 5                      # file-system / serialisation helpers: every line is a hot point (I/O windows are where
+                #                              concurrent readers see half-written state); nothing of this runs on the pinned tree
             else:
                 cls = 7                      # any other Python code a simulated thread runs into (stdlib, third party): line granularity
             h = 0
